@@ -87,7 +87,7 @@ def line_arith(rep):
 def bounded(rep, tier):
     from vrf.bounded import extract_grid as G
     t0 = time.time()
-    seeds = range(6 if tier == "quick" else 40)
+    seeds = range(6 if tier == "quick" else 600)
     jobs = [(s, c, e, w) for s in seeds for c in (False, True) for e in ("ascii", "utf-8", "latin-1") for w in ("babel", "lingua") if not (w == "lingua" and e == "latin-1")]
     outs = [o for o in pool_map(G.run_case, jobs) if o]
     bound = "%d shuffled templates with one call in each of %d construct kinds (expression incl. multi-line and filter arguments, control lines, code and module blocks, def/block/page signatures and bodies, <%%call> expression and body, namespace-call argument, nested def), random filler and decoys, LF/CRLF, ascii/utf-8/latin-1, Babel and Lingua" % (len(list(seeds)), len(G.CONSTRUCTS))
